@@ -90,11 +90,12 @@ func grid() []scenario {
 }
 
 type outcomeT struct {
-	snaps   []blk.Snapshot
-	holders []int // per snapshot: tokens the harness knows to be held (not yet completed holders + granted, uncompleted waiters)
-	final   blk.Final
-	reached bool
-	trace   []string
+	snaps     []blk.Snapshot
+	anonymous int64 // delegate attempts made with a context that carries no caller (never the case for a caller's own context)
+	holders   []int // per snapshot: tokens the harness knows to be held (not yet completed holders + granted, uncompleted waiters)
+	final     blk.Final
+	reached   bool
+	trace     []string
 }
 
 func run(t *testing.T, sc scenario, r *rand.Rand) outcomeT {
@@ -131,11 +132,17 @@ func run(t *testing.T, sc scenario, r *rand.Rand) outcomeT {
 			return true
 		}
 		var reached, armed atomic.Bool
+		var anonymous atomic.Int64
 		selfFails := map[int]int{}
 		var handoffTarget atomic.Int64
 		handoffTarget.Store(-1)
 		w.Gate.Hook = func(e inject.GateEvent) {
 			wt := w.WaiterByGoID(e.GoID)
+			if e.Caller < 0 {
+				// every caller of this world carries an id in its context; an attempt whose context carries none was made on
+				// behalf of a queued caller with a context that is not that caller's (partitioned delegates decide by it)
+				anonymous.Add(1)
+			}
 			if wt == nil {
 				// an attempt on behalf of a waiter made by another goroutine = hand-off attempt of unblock
 				if e.OK && e.Caller >= 0 && e.Caller < 900 {
@@ -325,6 +332,7 @@ func run(t *testing.T, sc scenario, r *rand.Rand) outcomeT {
 			}
 		}
 		out.reached = reached.Load()
+		out.anonymous = anonymous.Load()
 		w.Gate.Hook = nil
 		out.final = w.Teardown(nil)
 		out.trace = w.Trace()
@@ -334,6 +342,11 @@ func run(t *testing.T, sc scenario, r *rand.Rand) outcomeT {
 
 func judge(idx int64, sc scenario, o outcomeT) {
 	rt.Count("scenarios", 1)
+	if o.anonymous > 0 {
+		rt.Violation(fmt.Sprintf("C10/%s/hand-off-attempted-with-a-context-that-is-not-the-queued-callers", sc.Kind), idx, rt.J{"scenario": sc, "attempts": o.anonymous, "trace": o.trace,
+			"meaning": "the delegate decides by the caller's context (partitions): a hand-off evaluated for another context is evaluated for another caller"})
+		return
+	}
 	rt.Count("quiescent_snapshots", int64(len(o.snaps)))
 	if o.reached {
 		rt.Count("scenarios_reaching_their_schedule_point", 1)
